@@ -147,3 +147,30 @@ CHECKS["C17"]["text"] += " Snapshots are reflection based (fmt %+v would call pr
 CHECKS["C18"]["text"] += " 21 operation kinds incl. context ending during back-off, an open failing after the handshake, unsigned and foreign-session replies (a valid response is an authentic one for this session)."
 CHECKS["C19"]["text"] += " Ten workloads; odd slots are older BMCs (DCMI entity IDs only, suite 3 only) so process-wide memoisation shows; a workload refused with uncommon completion codes."
 CHECKS["C20"]["text"] += " 8-bit strings: all two-byte and the 3/4-byte sequences of high bytes (must not be read as UTF-8)."
+
+# ---- round 3 (texts only) -----------------------------------------------------
+ENGINES += [
+    {"name": "udpfront", "path": "harness/env/udp.go", "serves_properties": ["C09", "C10", "C11"],
+     "kind_free_text": "the same environment (reference BMC, answer menus, chooser) served on a loopback UDP socket in front of the hook-free DialV2, explored with the same deviation-bounded DFS; every execution is judged by the property's oracles and compared with the in-memory execution of the same choice vector (datagrams received by the BMC and callers' results must be identical) - binds the in-memory socket model to internal/pkg/transport"},
+]
+CHECKS["C01"]["text"] += " Password, KG and user name also range over eight byte-content kinds (zero bytes at the start/middle/end, all zero, all ones, top bits, white space); every ordered pair of suites (and a diagonal of triples) is opened as several sessions on one connection, closed before re-opening or held open together."
+CHECKS["C02"]["text"] += " Seven near-miss (caller secret, BMC secret) pairs: embedded / leading NUL with the BMC holding the prefix, one byte longer, trailing white space, top bit, empty vs one byte, transposed bytes."
+CHECKS["C04"]["text"] += " Keyless forgeries with the authenticated flag set (empty / zero / ones AuthCode of each algorithm's length over a plaintext payload); two deviations over the catalogue in the quick tier too (a forgery after a temporary code meets the layers as the retry path left them); the forger answers the last request the BMC understood."
+CHECKS["C05"]["text"] += " Paged exchanges against a BMC that fills every cipher-suite list index with a full chunk must end by themselves."
+CHECKS["C06"]["text"] += " 130 user names (white space and control characters at the ends, boundary lengths 15..18, multi-byte text) through NewV2Session against a BMC that knows exactly that name."
+CHECKS["C07"]["text"] += " ipmi.Message is compared field by field with the reference message parser on every value of every non-checksum byte; every input is additionally decoded into a value that has just decoded each of the layer's other shapes."
+CHECKS["C08"]["text"] += " The wrapper's hash has verified (accepted or rejected) one of eight kinds of packet before it signs."
+CHECKS["C09"]["text"] += " Zero-length datagrams and rejected replies with non-zero wrapper ID/sequence are in the alphabets; Get Sensor Reading with owner LUN 1 is in the command alphabet. Real-transport replay (engine udpfront): about 2.6k executions (quick) over DialV2 and a loopback socket."
+CHECKS["C10"]["text"] += " Real-transport replay as for C09."
+CHECKS["C11"]["text"] += " Real-transport replay (engine udpfront): about 3.1k executions (quick) in which delayed replies really arrive after the read deadline and duplicates really wait in the kernel buffer."
+CHECKS["C12"]["text"] += " All 64 values of each algorithm field with the other two as proposed; the reference BMC follows through with algorithms only it knows."
+CHECKS["C13"]["text"] += " Further patterns: every reply duplicated; a cipher-suite list that fills all 64 indexes. Virtual time also judges a back-off sleep whose context is not derived from the caller's when the deadline falls inside it."
+CHECKS["C15"]["text"] += " The record value is reused (overwritten / zeroed) after the reader was built; replies with a normal code and 0..2 data bytes on fresh and used readers."
+CHECKS["C17"]["text"] += " Records of a paged list: for every ordered pair of 32 cipher-suite record shapes the entries of the later record equal those it yields alone."
+CHECKS["C18"]["text"] += " DialV2 with zero / negative / repeated timeout options. Real-socket histories use 400 ms attempts and report only what repeats."
+CHECKS["C19"]["text"] += " Every BMC's repository holds BCD-plus and 6-bit packed sensor names (scheduler and race pass)."
+for _p in ("C09", "C10", "C11"):
+    CHECKS[_p]["note"] += " Real-transport replay: executions containing the end of the caller's context are excluded (asynchronous for a real socket); a finding must repeat on two further runs; the stage stops at its first confirmed counterexample."
+
+for _p in ("C09", "C10", "C11"):
+    CHECKS[_p]["engine"] += "+udpfront"
